@@ -92,7 +92,7 @@ class C14(Prop):
     LEVEL_TEXT = ("Theorems (Coq, closed under the global context) over a model of Storage/Hardware arithmetic with exact "
                   "amounts: for every pair of constructible values (any number of storages, any keys, aliasing keys and "
                   "repeated mount points) a+b is defined, normalised and adds per mount point; (a+b)-b is defined and "
-                  "restores cores, memory and every per-mount total of a; normalisation is defined, idempotent (equality of "
+                  "restores cores, memory and every per-mount total of a; x-b is defined and exact per mount point whenever b's mount points are among x's and b fits (C14_sub_totals), and then (x-b)+b restores x; normalisation is defined, idempotent (equality of "
                   "values), keyed by mount point, and preserves cores, memory, the mount-point set and every per-mount total; "
                   "satisfies answers true exactly when cores, memory and every mount-point total of the requirement are <= the "
                   "capacity's when the capacity knows all the requirement's mount points, and otherwise raises exactly when "
